@@ -32,6 +32,8 @@ def impl(case):
         ge = add_EOS(common.mk_cfg(case["cfg"], R))
         out["eos"] = common.enc_cfg(ge, R)
         out["eos_ctr"] = _cfg._gen_nt.i
+        g2 = add_EOS(add_EOS(common.mk_cfg(case["cfg"], R), eos="</s>"), eos="</d>")      # two-level wrapping
+        out["eos2"] = common.enc_cfg(g2, R)
     except Exception as e:  # noqa
         out["eos"] = {"exc": type(e).__name__, "msg": str(e)[:200]}
     return out
@@ -39,6 +41,12 @@ def impl(case):
 
 def make_case(rng, i, tier):
     desc, shape = gen.gen_cfg(rng, maxrules=7 if tier == "quick" else 9)
+    if rng.random() < 0.15:
+        # improper PCFG: every head's rule weights sum to one, yet the total weight is < 1
+        p = rng.choice(["5/8", "3/4", "9/16"])
+        q = common.frac_str(1 - common.num(p))
+        desc = {"S": "S", "V": ["a", "b"], "rules": [[p, "S", ["S", "S"]], [q, "S", ["A"]], ["1/2", "A", ["a"]], ["1/2", "A", ["b", "A"]]]}
+        shape = "improper_pcfg"
     xs = gen.gen_strings(rng, desc, k=5, maxlen=3 if tier == "quick" else 4)
     return {"id": i, "shape": shape, "R": "Float", "cfg": desc, "xs": xs}
 
@@ -62,6 +70,7 @@ def run(ctx):
     shapes = {}
     stats = {"positive_total": 0, "zero_total": 0, "heads_checked": 0, "useless_heads_dropped": 0}
     ln_items, ln_idx, eos_items, eos_idx, sops, sidx, lnz_items = [], [], [], [], [], [], []
+    eos2_items, eos2_idx = [], []
     for k, c in enumerate(cases):
         shapes[c["shape"]] = shapes.get(c["shape"], 0) + 1
         r0 = impl_res[hashseeds[0]].get(c["id"])
@@ -90,9 +99,16 @@ def run(ctx):
             eos_idx.append(k)
             sops.append({"op": "transform", "R": "Float", "name": "add_eos", "cfg": c["cfg"], "eos": EOS, "ctr": 5})
             sidx.append((k, "add_eos", r0["eos"], r0.get("eos_ctr")))
+            if isinstance(r0.get("eos2"), dict) and "rules" in r0["eos2"]:
+                e2 = []
+                for x in c["xs"]:
+                    e2 += [x + ["</s>", "</d>"], x + ["</d>"], x + ["</s>", "</s>", "</d>"], x + ["</s>", "</d>", "</d>"]]
+                eos2_items.append((r0["eos2"], "Float", e2))
+                eos2_idx.append(k)
     lnw = dict(zip(ln_idx, T.eval_wn(ctx, ln_items)))
     lnz = dict(zip(ln_idx, zn_eval(ctx, lnz_items)))
     eosw = dict(zip(eos_idx, T.eval_wn(ctx, eos_items)))
+    eos2w = dict(zip(eos2_idx, T.eval_wn(ctx, eos2_items)))
     for (k, name, got, ctr), r in zip(sidx, ctx["lean"](sops)):
         evaluations += 1
         if "error" in r:
@@ -165,6 +181,20 @@ def run(ctx):
                         continue
                     if got[j] not in (0, False) and not common.close(got[j], 0, 0, 1e-12):
                         semantic.append(_viol(c, 0, "add_EOS", lab, {"WN_eos": str(got[j]), "expected": 0, "string": x, "output": r0["eos"]}))
+                    else:
+                        traces += 1
+        if k in eos2w:
+            vals, conv, _ = eos2w[k]
+            for t, x in enumerate(c["xs"]):
+                o, ocv = bvals[t], bconv[t]
+                got = vals[4 * t: 4 * t + 4]
+                gconv = conv[4 * t: 4 * t + 4]
+                evaluations += 4
+                if ocv and gconv[0] and not common.close(got[0], o, 1e-7, 1e-10):
+                    semantic.append(_viol(c, 0, "add_EOS_twice", x + ["</s>", "</d>"], {"WN_eos2": str(got[0]), "WN": str(o), "output": r0["eos2"]}))
+                for j, lab in ((1, "inner EOS missing"), (2, "two inner EOS"), (3, "two outer EOS")):
+                    if not common.close(got[j], 0, 0, 1e-12):
+                        semantic.append(_viol(c, 0, "add_EOS_twice", lab, {"WN_eos2": str(got[j]), "expected": 0, "string": x, "output": r0["eos2"]}))
                     else:
                         traces += 1
         if len(samples) < 3 and ZS and k in lnw:
